@@ -115,7 +115,7 @@ func report(run *vlib.Run, e *enumeration, res []Result) {
 	at := attribute(e.jobs, res)
 
 	sigs := map[string]*sigInfo{}
-	evaluations, skipped, generr, unsupported, clean, failing := 0, 0, 0, 0, 0, 0
+	evaluations, skipped, generr, unsupported, clean, failing, arrayFiltered := 0, 0, 0, 0, 0, 0, 0
 	files, modules, bytes := 0, 0, 0
 	distinct := map[string]bool{}
 	groups := map[string]int{}
@@ -143,6 +143,7 @@ func report(run *vlib.Run, e *enumeration, res []Result) {
 		modules += r.Modules
 		bytes += r.Bytes
 		unsupported += r.Unsupported
+		arrayFiltered += r.ArrayFiltered
 		distinct[r.Hash] = true
 		for _, f := range r.Files {
 			if f == "bondmachine_tb.v" {
@@ -239,6 +240,7 @@ func report(run *vlib.Run, e *enumeration, res []Result) {
 	run.Set("bytes_linted", bytes)
 	run.Set("unsupported_constructs_not_checked", unsupported)
 	run.Set("testbenches_syntax_only", tb)
+	run.Set("engine_array_multidriver_reports_proved_spurious", arrayFiltered)
 	run.Set("distinct_signatures", len(order))
 	run.Set("external_ip_allow_list", []string{})
 	run.Set("bounds", e.bounds)
